@@ -75,6 +75,23 @@ def equality(args):
         ha, hb = A.__hash__(), B.__hash__()
         ctx.check('identical-vectors-identical-hash', And(And(*[x == y for x, y in zip(a, b)]), ha != hb))
         ctx.check('hash-is-int-like', not isinstance(ha, (int, core.SNum)))
+        # multi-step: a point that was hashed and then MOVED (in place, by re-assignment, through sync) must
+        # hash like a fresh point with the same vector -- a stale cached hash breaks set()/dict de-duplication
+        c = [ctx.real('c%d' % i) for i in range(n)]
+        M1 = I.Individual(list(a))
+        M1.__hash__()
+        for i in range(n):
+            M1.vector[i] = c[i]                       # in-place update (swarm position update, clipping)
+        M2 = I.Individual(list(a))
+        M2.__hash__()
+        M2.vector = list(c)                           # re-assignment (Job retry)
+        M3 = I.Individual(list(a))
+        M3.__hash__()
+        M3.sync(I.Individual(list(c)))
+        F = I.Individual(list(c))
+        for tag, M in (('in-place', M1), ('reassigned', M2), ('synced', M3)):
+            ctx.check('hash-follows-the-current-vector(%s)' % tag, M.__hash__() != F.__hash__())
+            ctx.check('equality-follows-the-current-vector(%s)' % tag, Not(M == F))
     return body
 
 
